@@ -70,3 +70,59 @@ Theorem C01_lru_refines :
     Permutation.Permutation (fst (abs_run (seq 0 n) cs)) (seq 0 n).
 Proof. exact lru_refines. Qed.
 Print Assumptions C01_lru_refines.
+
+(* ---- Stage B for SsaTape::new: flattening a Context arena -------------------------- *)
+From FV Require Import Flatten CtxEval FlattenPass2 FlattenProof.
+
+(* On every arena a Context can build (children before parents, constants folded),
+   flattening never fails ... *)
+Theorem C01_flatten_total :
+  forall (I : Type) (arena : list (cnode I)) (roots : list nat),
+    arena_ok arena roots -> exists t vars, flatten arena roots = Ok (t, vars).
+Proof. exact (@flatten_total). Qed.
+Print Assumptions C01_flatten_total.
+
+(* ... produces a well-formed SSA tape with the advertised counts and a duplicate-free
+   variable map ... *)
+Theorem C01_flatten_wf :
+  forall (I : Type) (arena : list (cnode I)) (roots : list nat) (t : ssa_tape I) (vars : varmap),
+    arena_ok arena roots -> flatten arena roots = Ok (t, vars) ->
+    ssa_wf (t_ops t) = true /\
+    t_outputs t = length roots /\
+    t_choices t = count_choices (t_ops t) /\
+    count_outputs (t_ops t) = length roots /\
+    NoDup vars.
+Proof.
+  intros I arena roots t vars OK H.
+  destruct (@flatten_wf I arena roots t vars OK H) as (A & B & C & D & E & _). auto.
+Qed.
+Print Assumptions C01_flatten_wf.
+
+(* ... and the tape computes exactly the direct node-by-node evaluation of the graph, for
+   every value type and semantics in which the immediate forms are the register forms and
+   Add/Mul/Min/Max commute with an immediate operand (SsaTape::new swaps those), for any
+   number of roots incl. duplicate and constant roots. *)
+Theorem C01_flatten_correct :
+  forall (V I : Type) (sem : Sem V I) (env : nat -> V) (arena : list (cnode I)) (roots : list nat),
+    (forall b x c, s_ri sem b x c = s_rr sem b x (s_imm sem c)) ->
+    (forall b c x, s_ir sem b c x = s_rr sem b (s_imm sem c) x) ->
+    forall (t : ssa_tape I) (vars : varmap),
+    (forall b x c, In b [BAdd; BMul; BMin; BMax] ->
+       s_rr sem b x (s_imm sem c) = s_rr sem b (s_imm sem c) x) ->
+    arena_ok arena roots -> flatten arena roots = Ok (t, vars) ->
+    eval_outputs sem (t_ops t) (length roots) (map env vars) = map (ctx_eval sem arena env) roots.
+Proof. intros V I sem env arena roots Hri Hir t vars. exact (@flatten_correct I arena roots V sem env Hri Hir t vars). Qed.
+Print Assumptions C01_flatten_correct.
+
+(* the commutation hypothesis is necessary: this is the defect repaired by 5adfca8 *)
+From FV Require Import FlattenF32.
+Theorem C01_old_min_choice_refuted :
+  forall o : oracle,
+  arena_ok min_arena [2] /\
+  exists t vars,
+    flatten min_arena [2] = Ok (t, vars) /\
+    t_ops t = [OOutput 0 0; OBinRI BMin 0 1 fnzero; OInput 1 0] /\
+    eval_outputs (f32_sem_old o) (t_ops t) 1 (map (fun _ => fzero) vars) = [fnzero] /\
+    map (ctx_eval (f32_sem_old o) min_arena (fun _ => fzero)) [2] = [fzero].
+Proof. exact flatten_f32_old_min_counterexample. Qed.
+Print Assumptions C01_old_min_choice_refuted.
